@@ -10,18 +10,21 @@ Theorem C09_stop_after_abort : forall g s e,
   aborting s = true -> (forall cf n f, e <> ECall cf n f) ->
   input_fields (fst (step g s e)) = input_fields s /\ aborting (fst (step g s e)) = true.
 Proof. exact stop_after_abort. Qed.
+Print Assumptions C09_stop_after_abort.
 
 (* pre_dispatch='all': everything has been taken when _start returns *)
 Theorem C09_all_up_front : forall s, reach s -> pre (c s) = PreAll ->
   (phase s = Retrieving \/ (exists r, phase s = Draining r) \/ phase s = Finished) ->
   aborting s = false -> taken s = N s /\ ready s = [].
 Proof. exact pre_all_takes_everything. Qed.
+Print Assumptions C09_all_up_front.
 
 (* items are only ever taken in input order and each at most once (no two threads interleave inside the
    slicing: it happens inside one atomic event of the model, which the lock probe ties to the code) *)
 Theorem C09_taken_is_a_prefix : forall s, reach s -> ifail s = None ->
   concat (submitted s) ++ concat (ready s) = seq 0 (taken s) /\ taken s <= N s.
 Proof. exact partition_invariant. Qed.
+Print Assumptions C09_taken_is_a_prefix.
 
 (* the bound: with pre_dispatch = p items, n_jobs workers and batch sizes (the 'auto' oracle included)
    never above B, in every state reachable by any schedule in which no completion callback ran its dispatch
@@ -34,6 +37,7 @@ Theorem C09_bound : forall B s p, reachb (okB B) s -> noisy s = false -> ifail s
   length (opens s) <= p /\
   length (filter (is_cur s) (inflight s)) <= p.
 Proof. exact laziness_bound. Qed.
+Print Assumptions C09_bound.
 
 (* known finding F26: without that restriction the bound fails (the caller thread, still in _start, drains the
    look-ahead queue refilled by a callback): 14 > 1*2 + 4*2 with 4 open batches for pre_dispatch = 1 *)
@@ -41,3 +45,4 @@ Theorem C09_bound_refuted :
   let s := fst (run_events true init f26_events) in
   noisy s = true /\ taken s - n_comp s = 14 /\ 1 * 2 + 4 * 2 = 10 /\ length (opens s) = 4 /\ pre (c s) = PreN 1.
 Proof. exact f26_witness. Qed.
+Print Assumptions C09_bound_refuted.
